@@ -422,3 +422,16 @@ for _p in ('C17', 'C18'):
     for _t in ('quick', 'thorough'):
         PROPS[_p][_t] = PROPS[_p][_t] + [cli_e2e()]
     PROPS[_p]['bounds_text'] += '; supplement (enumerated runs of the real binary, not solver-decided): ~50 expectations on a three-package module (good / no injectors / failing): exit codes of gen, the default-command form, diff, check, show; file-system footprint; header and prefix; six histories (stale garbage, failed generation, other variant, deletion, hand edit, other tags) after which gen must leave the fresh-checkout file'
+
+def _g(sp, covers):
+    sp['covers'] = covers
+    return sp
+
+
+PROPS['C19']['quick'] = [x for x in PROPS['C19']['quick'] if not str(x.get('label', '')).startswith('H_gather')] + [
+    _g(gather(11136, K=1), ['gathered', 'groups>=2', 'two-inline-sets']), _g(gather(1136), ['gathered', 'groups>=2']), _g(gather(111363, K=1, inputs=1), ['gathered', 'two-inline-sets'])]
+PROPS['C19']['thorough'] = [x for x in PROPS['C19']['thorough'] if not str(x.get('label', '')).startswith('H_gather')] + [
+    _g(gather(11136), ['gathered', 'groups>=2', 'two-inline-sets']), _g(gather(113163), ['gathered', 'groups>=2']), _g(gather(111363, K=2, inputs=2), ['gathered', 'two-inline-sets'])]
+PROPS['C19']['covers']['H_gather'] = ['gathered']
+PROPS['C19']['bounds_text'] += '; the outer set includes up to two inline (unnamed) sets of one package, each including a named set'
+
